@@ -102,5 +102,5 @@ def convert(rec, gindex, keep_lex=False):
         'id': rec['id'], 'g': gindex, 'bytes': rec['bytes'],
         'v': bool(rec['verbose']), 'ws': bool(rec['ws']), 'nl': bool(rec['nl']),
         'sk': rec['stream'], 'cat': rec.get('ctx', 0), 'ctxmut': rec.get('ctxmut', 0), 'ok': rec['ok'], 'threw': rec.get('threw', ''), 'partial': rec.get('partial', ''),
-        'events': evs, 'root': root, 'tree': flat, 'nlex': nlex,
+        'events': evs, 'root': root, 'tree': flat, 'nlex': nlex, 'lexl': bool(keep_lex),
     }
